@@ -654,8 +654,8 @@ func (k *checker) walkComp(sp *space, v *repoView, ci int, r interface{ Intn(int
 						}
 						if explained {
 							f.Key = "all:missing-commits-behind-first-already-listed-commit"
-							for _, x := range d.Missing {
-								if !noAtags[x] { // a missing commit that only an annotated tag reaches
+							for _, t := range sp.atags {
+								if !got[t] && want[t] { // the commit an annotated tag points at is itself missing
 									f.Key += "+annotated-tag-tips-ignored"
 									break
 								}
